@@ -100,7 +100,7 @@ func metadataKeysWritten(m *Module) map[string]bool {
 	rot := m.Func("internal/counter", "file.rotate1")
 	out := map[string]bool{}
 	for _, cs := range callsIn(rot, "fmt.Sprintf") {
-		f, ok := constOf(cs.Common().Args[0])
+		f, ok := constOf(argsOf(cs)[0])
 		if !ok || !strings.Contains(f, "TimeBegin") {
 			continue
 		}
